@@ -405,6 +405,140 @@ def d3_states(chk: Check) -> None:
                              "handler does not record a non-zero state")
 
 
+def d6_lone_stream(chk: Check) -> None:
+    """A lone input stream in condense-all mode is folded by the special
+    step after the per-file loop, which runs when *no merge took place*.
+    "A merge took place" is a counter; it must count calls of merge_docs
+    and nothing else: an increment on a path that only loaded the first
+    stream makes the lone stream look merged, and its documents are written
+    out unfolded (the number of output documents then depends on whether a
+    second input existed, not on the mode and the stream lengths)."""
+    from sa.flow import Flow
+    prog = chk.prog
+    chk.rule("C18-D6", "yaml-merge main(): the counter consulted by the "
+             "lone-stream condense step is incremented only after a call of "
+             "merge_docs on the same path, once per call", floor=2)
+    fi = fn(prog, "main")
+    counter = None
+    for t in walk_local(fi.node):
+        if isinstance(t, ast.If) and "CONDENSE_ALL" in src(t.test):
+            for c in ast.walk(t.test):
+                if isinstance(c, ast.Compare) and len(c.ops) == 1 and \
+                        isinstance(c.ops[0], ast.Eq) and \
+                        src(c.comparators[0]) == "0" and \
+                        isinstance(c.left, ast.Name) and \
+                        "state" not in c.left.id:
+                    counter = c.left.id
+    if counter is None:
+        raise AnalysisError("lone-stream condense test of yaml-merge main() "
+                            "not found")
+    bad: List[ast.AST] = []
+    good: List[ast.AST] = []
+
+    def transfer(stmt: ast.stmt, st, flow):
+        if any(isinstance(c, ast.Call) and src(c.func) == "merge_docs"
+               for c in ast.walk(stmt)):
+            st = True
+        if isinstance(stmt, ast.AugAssign) and src(stmt.target) == counter:
+            (good if st else bad).append(stmt)
+            st = False
+        elif isinstance(stmt, ast.Assign) and \
+                any(src(t) == counter for t in stmt.targets) and \
+                src(stmt.value) != "0":
+            bad.append(stmt)
+        return [st]
+
+    def branch(test: ast.AST, st, flow):
+        return [st], [st]
+    Flow(transfer, branch).run(fi.node.body, [False])
+    for b in {id(x): x for x in bad}.values():
+        chk.fail("C18-D6", fi, b, "`{}` without a merge".format(src(b)),
+                 "`{}` is reachable on a path with no (uncounted) call of "
+                 "merge_docs: a stream that was only loaded counts as "
+                 "merged and the lone-stream condense step is skipped"
+                 .format(src(b)))
+    for g in {id(x): x for x in good}.values():
+        if not any(g is b for b in bad):
+            chk.ok("C18-D6", fi, g, "`{}` after merge_docs".format(src(g)),
+                   "counts a merge that took place on this path")
+    if not good and not bad:
+        raise AnalysisError("no increment of the merge counter found")
+
+
+def d7_documents_as_loaded(chk: Check) -> None:
+    """The number of documents a stream contributes is the number the
+    loader yields, and each is wrapped as it was loaded.
+
+    a. Merger.__init__ stores the document it is given.  The drivers wrap
+       *right-hand* documents in Mergers too, and merge_with() skips a null
+       right-hand document: a constructor that builds a container for an
+       empty document makes every empty right-hand document count as data.
+    b. The STDIN arm of the multi-document loader adds its one fallback
+       document ("deliberately empty input") exactly when the stream yielded
+       nothing: the flag that suppresses it is set on every path to every
+       yield of the loop."""
+    from sa.flow import Flow
+    prog = chk.prog
+    chk.rule("C18-D7", "Merger.__init__ stores its document parameter "
+             "unchanged; the multi-document loader's fallback document is "
+             "governed by a flag set on every path to each yield of the "
+             "stream loop", floor=2)
+    init = prog.func("Merger.__init__")
+    doc = init.params()[2]
+    stores = [a for a in walk_local(init.node)
+              if isinstance(a, (ast.Assign, ast.AnnAssign)) and
+              any(src(t) == "self.data" for t in (
+                  a.targets if isinstance(a, ast.Assign) else [a.target]))]
+    if not stores:
+        raise AnalysisError("Merger.__init__ does not store its document")
+    for a in stores:
+        text = "Merger.__init__: self.data = {}".format(src(a.value)[:40])
+        if src(a.value) == doc:
+            chk.ok("C18-D7", init, a, text, "the document as given")
+        else:
+            chk.fail("C18-D7", init, a, text,
+                     "the Merger replaces the document it wraps: an empty "
+                     "(null) document of a right-hand stream is no longer "
+                     "skipped by merge_with and is merged in as data")
+    ld = prog.func("Parsers.get_yaml_multidoc_data")
+    fallbacks = [n for n in walk_local(ld.node) if isinstance(n, ast.If) and
+                 isinstance(n.test, ast.UnaryOp) and
+                 isinstance(n.test.op, ast.Not) and
+                 isinstance(n.test.operand, ast.Name) and any(
+                     isinstance(y, ast.Yield) for st in n.body
+                     for y in ast.walk(st))]
+    if len(fallbacks) != 1:
+        raise AnalysisError("fallback document of the STDIN arm not found")
+    flag = fallbacks[0].test.operand.id  # type: ignore
+    blk = parent(fallbacks[0])
+    body = getattr(blk, "body", [])
+    loops = [st for st in body[:body.index(fallbacks[0])]
+             if isinstance(st, ast.For)] if fallbacks[0] in body else []
+    if len(loops) != 1:
+        raise AnalysisError("stream loop before the fallback not found")
+    bad = []
+
+    def transfer(stmt: ast.stmt, st, flow):
+        if isinstance(stmt, ast.Assign) and src(stmt.targets[0]) == flag:
+            return [isinstance(stmt.value, ast.Constant) and
+                    stmt.value.value is True]
+        if any(isinstance(y, ast.Yield) for y in ast.walk(stmt)) and not st:
+            bad.append(stmt)
+        return [st]
+
+    def branch(test: ast.AST, st, flow):
+        return [st], [st]
+    Flow(transfer, branch).run(loops[0].body, [False])
+    text = "get_yaml_multidoc_data: `{}` before each yield".format(flag)
+    if bad:
+        chk.fail("C18-D7", ld, bad[0], text,
+                 "a document can be yielded without `{}` being set: the "
+                 "fallback document is then yielded in addition, and a "
+                 "stream of n documents loads as n+1".format(flag))
+    else:
+        chk.ok("C18-D7", ld, loops[0], text, "set on every path")
+
+
 def run(chk: Check) -> None:
     d1_routing(chk)
     d2_condense(chk)
@@ -412,6 +546,8 @@ def run(chk: Check) -> None:
     d2_matrix_copies(chk)
     d2_across(chk)
     d3_states(chk)
+    d6_lone_stream(chk)
+    d7_documents_as_loaded(chk)
     # a Merger folds many right-hand documents into one left document:
     # conflict detection must look at the accumulated document each time
     from rules.c10 import d4_fresh_tables
